@@ -190,6 +190,63 @@ def hop_case(mask: int, style: int, value: str) -> bool:
     return [k for k, _ in resp.headers] == ["X-Keep"]
 
 
+UP_STATUS = ["200 OK", "101 Switching Protocols", "426 Upgrade Required", "400 Bad Request"]
+UP_VALUES = ["websocket", "WebSocket", " websocket ", "h2c", "TLS/1.0", "websocket, h2c", "x"]
+UP_NAMES = ["Upgrade", "upgrade", "UPGRADE"]
+
+
+def upgrade_case(si: int, vi: int, ni: int) -> bool:
+    """
+    pre: 0 <= si < len(UP_STATUS) and 0 <= vi < len(UP_VALUES) and 0 <= ni < len(UP_NAMES)
+    post: __return__
+    """
+    # Upgrade is hop-by-hop: the one thing gunicorn lets through is the websocket handshake value; whatever the status,
+    # any other value set by the application is not forwarded
+    si, vi, ni = pick(si, 0, len(UP_STATUS) - 1), pick(vi, 0, len(UP_VALUES) - 1), pick(ni, 0, len(UP_NAMES) - 1)
+    status, value = UP_STATUS[si], UP_VALUES[vi]
+    s, resp, refused = emit(status, [(UP_NAMES[ni], value), ("X-Keep", "1")], send=True)
+    if refused:
+        return len(s.out) == 0
+    head = s.wire().lower()
+    forwarded = b"\r\nupgrade:" in head
+    return forwarded == (value.lower().strip() == "websocket")
+
+
+BAD_NAMES = ["X Y", "X-Trace\r\nSet-Cookie: a=b\r\nX-Pad", "X\x00", "X\xe9", "(x)", "", "X:"]
+
+
+def twice_case(bi: int, second_exc_info: bool) -> bool:
+    """
+    pre: 0 <= bi < len(BAD_NAMES)
+    post: __return__
+    """
+    # the same invalid header name offered twice in one process (a second request on the worker, or a retry with exc_info):
+    # refused both times, nothing on the wire.  State kept between calls is the subject, so the solver only picks the
+    # inputs and the calls run with tracing off (CrossHair reports cross-path state as NotDeterministic otherwise).
+    from engine.harness_api import untraced as NoTracing
+    bi = pick(bi, 0, len(BAD_NAMES) - 1)
+    second_exc_info = bool(pick(int(second_exc_info), 0, 1))
+    with NoTracing():
+        name = BAD_NAMES[bi]
+        for attempt in range(3):
+            s, resp, refused = emit("200 OK", [(name, "v")], send=True)
+            if not refused or s.out:
+                return False
+        # and within one response object: refused, then offered again through the exc_info form
+        s = RecSock()
+        resp = wsgi.Response(Req(), s, SimpleNamespace(is_ssl=False, sendfile=None))
+        for attempt in range(2):
+            try:
+                if attempt and second_exc_info:
+                    resp.start_response("200 OK", [(name, "v")], (ValueError, ValueError("x"), None))
+                else:
+                    resp.start_response("200 OK", [(name, "v")])
+                return False
+            except REFUSED:
+                pass
+        return not s.out
+
+
 def second_call(sent_first: bool, n1: int, n2: int) -> bool:
     """
     pre: 0 <= n1 <= 2 and 0 <= n2 <= 2
@@ -306,6 +363,11 @@ OBLIGATIONS = [
     Ob("C09.hop", "hop_case", cases=[{"name": nm} for nm in ("te", "date", "server", "trailers", "keep-alive", "connection",
                                                             "transfer-encoding", "proxy-authenticate", "proxy-authorization")],
        timeout=600, bound="every hop-by-hop name with all 16 case patterns of its first four letters x 4 styles for the rest, value 'x' + <=1 arbitrary character"),
+    Ob("C09.upgrade", "upgrade_case", timeout=300,
+       bound="Upgrade header in 3 spellings x 7 values x status 200 / 101 / 426 / 400: forwarded iff the value is websocket"),
+    Ob("C09.twice", "twice_case", timeout=300,
+       bound="7 invalid header names, each offered three times in one process and twice to one Response (plain / exc_info): refused every "
+             "time; executed untraced after the solver picked the inputs"),
     Ob("C09.wire", "wire", timeout=300, bound="5 concrete heads incl. latin-1 characters, padded values and the websocket upgrade pair: "
                                               "bytes on the wire = the pieces joined and latin-1 encoded"),
     Ob("C09.second_call", "second_call", timeout=300,
